@@ -428,7 +428,7 @@ func c12(c *Ctx) {
 		}
 	}
 	// ---- concurrent scenarios
-	kinds := []string{"order", "late", "dup", "unknown", "bad", "never", "mixed", "mixed", "attr", "notmo", "prejoin",
+	kinds := []string{"burst", "burst", "order", "late", "dup", "unknown", "bad", "never", "mixed", "mixed", "attr", "notmo", "prejoin",
 		"close-outstanding", "close-afterresp", "close-queued"}
 	per := 9
 	if !c.Quick() {
